@@ -581,6 +581,59 @@ def run(ctx):
                              "values answers for every raw input that compares equal to one it has seen", n, key=f"R5.10:{mname.replace('flow.record.', '')}:{tgt}:conversion-cache")
     ctx.floor("R5.10", "functions of the field-type modules examined", n_ft, 100)
 
+    # ------------------------------------------------------------------ R5.11 the class cache cannot evict
+    ctx.rule("R5.11", "fieldtype() CREATES the class of a list type; it is memoised so that every use of `T[]` gets the same class. The cache is unbounded or at least as "
+                      "large as the number of names it can be asked for (every whitelist entry and its list form): an evicted list class is re-created as a different class, and "
+                      "a value of a `T[]` field then is no longer an instance of the field's declared type")
+    ft11 = ctx.anchor_func("flow.record.base.fieldtype")
+    wl11 = prog.fold(prog.module("flow.record.whitelist"), ast.parse("WHITELIST").body[0].value)
+    need11 = 2 * len(wl11)
+    size11 = "missing"
+    for d11 in ft11.decorator_list:
+        dn = norm(d11.func) if isinstance(d11, ast.Call) else norm(d11)
+        if dn.split(".")[-1] == "cache":
+            size11 = None
+        elif dn.split(".")[-1] == "lru_cache":
+            size11 = 128
+            if isinstance(d11, ast.Call):
+                arg = d11.args[0] if d11.args else next((k.value for k in d11.keywords if k.arg == "maxsize"), None)
+                if arg is not None:
+                    try:
+                        size11 = prog.fold(base, arg)
+                    except NotConst:
+                        size11 = "unknown"
+    ok11 = size11 is None or (isinstance(size11, int) and size11 >= need11)
+    ctx.check(ok11, "R5.11", "fieldtype:cache-size", f"fieldtype() is memoised with maxsize={size11}, but {need11} type names (scalar and list forms) can be requested: list classes get evicted "
+              "and re-created", ft11, f"unbounded or >= {need11}", key="R5.11:fieldtype:cache-evicts")
+
+    # ------------------------------------------------------------------ R5.12 a validating setter keeps its attributes in step
+    ctx.rule("R5.12", "a validating property setter that writes several private attributes (the hex text and its binary form) writes ALL of them on every path that "
+                      "ends normally: clearing the value (`x.md5 = None`) must clear the binary copy the packer writes as well")
+    n12 = 0
+    for cls12 in fieldtype_classes(prog):
+        for fn12 in prog.methods_of(cls12).values():
+            if not any(isinstance(d, ast.Attribute) and d.attr == "setter" for d in fn12.decorator_list):
+                continue
+            me12 = func_params(fn12)[0]
+            attrs12 = sorted({n.attr for n in ast.walk(fn12) if isinstance(n, ast.Attribute) and isinstance(n.ctx, ast.Store) and norm(n.value) == me12})
+            if len(attrs12) < 2:
+                continue
+            n12 += 1
+            cfg12 = CFG(fn12, nothrow=plain_store_nothrow)
+            for a12 in attrs12:
+                stores12 = {n.id for n in cfg12.stmt_nodes() if f"{me12}.{a12}" in stored_paths(n)}
+                skipped = cfg12.exit in cfg12.reachable(cfg12.entry, avoid=lambda n: n.id in stores12) and any(
+                    cfg12.exit in {v for v, cnd in cfg12.succ[u] if not (cnd is not None and cnd[0] == "<exc>")} or True for u in [cfg12.entry])
+                # only normal completions count: a path that raises leaves the object as it was (R5.4)
+                normal_exit_preds = [u for u in range(len(cfg12.nodes)) if any(v == cfg12.exit and not (cnd is not None and cnd[0] == "<exc>") for v, cnd in cfg12.succ[u])
+                                     and not isinstance(cfg12.nodes[u].ast, ast.Raise)]
+                reach = cfg12.reachable(cfg12.entry, avoid=lambda n: n.id in stores12)
+                skipped = any(u in reach for u in normal_exit_preds)
+                ctx.check(not skipped, "R5.12", f"{cls12.name}.{fn12.name}:{a12}", f"the setter can end normally without assigning {me12}.{a12} although it assigns {attrs12} on other paths: "
+                          "the attributes get out of step (a cleared value keeps its old binary form)", fn12, f"every normal path assigns {attrs12}",
+                          key=f"R5.12:{cls12.name}.{fn12.name}:attributes-out-of-step")
+    ctx.floor("R5.12", "setters writing several attributes", n12, 3)
+
 
 
 def check_naive_utc(ctx, rule):
@@ -778,6 +831,8 @@ def check_generated_value_tests(ctx, rule: str) -> None:
                 loopvars |= {x.id for x in ast.walk(f.target) if isinstance(x, ast.Name)}
 
         def generic(e):
+            if isinstance(e, ast.NamedExpr):
+                return generic(e.value)
             if isinstance(e, ast.Call) and norm(e.func) in ("kwargs.get", "kwargs.pop"):
                 return True
             if isinstance(e, ast.Subscript) and norm(e.value) == "kwargs":
